@@ -35,6 +35,11 @@
 #include <opm/input/eclipse/Schedule/Well/WellEconProductionLimits.hpp>
 #include <opm/input/eclipse/Schedule/Well/WDFAC.hpp>
 #include <opm/input/eclipse/Schedule/MSW/WellSegments.hpp>
+#include <opm/input/eclipse/Schedule/MSW/Segment.hpp>
+#include <opm/input/eclipse/Schedule/MSW/Valve.hpp>
+#include <opm/input/eclipse/Schedule/MSW/SICD.hpp>
+#include <opm/input/eclipse/Schedule/MSW/AICD.hpp>
+#include <opm/input/eclipse/Schedule/MSW/icd.hpp>
 #include <opm/input/eclipse/Schedule/Well/Connection.hpp>
 #include <opm/input/eclipse/Schedule/Group/Group.hpp>
 #include <opm/input/eclipse/Schedule/UDQ/UDQConfig.hpp>
@@ -76,6 +81,7 @@
 #include <algorithm>
 #include <chrono>
 #include <filesystem>
+#include <functional>
 #include <iostream>
 #include <memory>
 #include <optional>
@@ -116,6 +122,9 @@ bool isValueField(const std::string& kw, size_t idx, size_t nfields) {
     if (kw == "WTEST") return idx == 1 || idx == 4;
     if (kw == "WPIMULT") return idx == 1;
     if (kw == "NEXTSTEP") return idx == 0;
+    if (kw == "WELSEGS") return nfields == 8 && idx >= 5;                       // diameter, roughness, cross-section area
+    if (kw == "WSEGVALV") return (idx >= 2 && idx <= 6) || idx == 8;            // Cv, Ac, pipe D / roughness / A, max Ac
+    if (kw == "WSEGSICD" || kw == "WSEGAICD") return idx == 3;                  // device length (strength: not in the record)
     (void) nfields;
     return false;
 }
@@ -149,6 +158,20 @@ std::string deckText(const KwIR& k) {
     }
     if (k.name == "NEXTSTEP") { o << "NEXTSTEP\n " << k.recs[0][0] << " " << q(k.recs[0][1]) << " /\n"; return o.str(); }
     if (k.name == "WHISTCTL") { o << "WHISTCTL\n " << q(k.recs[0][0]) << " /\n"; return o.str(); }
+    if (k.name == "WELSEGS") {
+        // recs[0] = { well }, then { segment, branch, outlet, length, depth, diameter, roughness, area } (ABS, one segment per record)
+        o << "WELSEGS\n " << q(k.recs[0][0]) << " 2000 5 1* 'ABS' 'HF-' 'HO' /\n";
+        for (size_t i = 1; i < k.recs.size(); ++i) { const auto& r = k.recs[i]; o << " " << r[0] << " " << r[0] << " " << r[1] << " " << r[2] << " " << r[3] << " " << r[4] << " " << r[5] << " " << r[6] << " " << r[7] << " /\n"; }
+        o << "/\n";
+        return o.str();
+    }
+    if (k.name == "COMPSEGS") {
+        // recs[0] = { well }, then { i, j, k, branch, start, end }
+        o << "COMPSEGS\n " << q(k.recs[0][0]) << " /\n";
+        for (size_t i = 1; i < k.recs.size(); ++i) { const auto& r = k.recs[i]; o << " " << r[0] << " " << r[1] << " " << r[2] << " " << r[3] << " " << r[4] << " " << r[5] << " /\n"; }
+        o << "/\n";
+        return o.str();
+    }
     o << k.name << "\n";
     for (auto& r : k.recs) {
         o << " ";
@@ -198,6 +221,14 @@ std::string deckText(const KwIR& k) {
             for (size_t i = 2; i < r.size(); ++i) o << " " << dv(r[i]);
         } else if (k.name == "UDQ") {
             o << r[0] << " " << r[1] << " " << r[2];
+        } else if (k.name == "WSEGVALV") {
+            // well, segment, Cv, Ac, pipe diameter, roughness, pipe area, status, max Ac   (additional length always defaulted)
+            o << q(r[0]) << " " << r[1] << " " << r[2] << " " << r[3] << " 1* " << dv(r[4]) << " " << dv(r[5]) << " " << dv(r[6]) << " " << r[7] << " " << dv(r[8]);
+        } else if (k.name == "WSEGSICD") {
+            // well, segment, strength, length, status
+            o << q(r[0]) << " " << r[1] << " " << r[1] << " " << r[2] << " " << r[3] << " 7* " << r[4];
+        } else if (k.name == "WSEGAICD") {
+            o << q(r[0]) << " " << r[1] << " " << r[1] << " " << r[2] << " " << r[3] << " 7* 1.0 1.0 " << r[4];
         }
         o << " /\n";
     }
@@ -286,6 +317,16 @@ struct Gen {
     std::map<std::string, std::set<std::pair<int, int>>> cols;   // columns a COMPDAT may have connected each well in (over-approximation)
     int y = 2015, m = 1, d = 1;
     std::map<std::string, long>* stats = nullptr;
+    // fourth round: state-changing keywords re-issued for the SAME object at LATER report steps
+    struct Msw { std::string name; int i, j, nconn, nseg; std::vector<int> focus; };
+    std::vector<Msw> msw;                  // multisegment wells M1, M2 (not in `wells`: only `*` patterns and the segment keywords reach them)
+    bool mswOn = true;
+    bool noStar = false;                   // COMPDAT never uses `*` (connections added to a multisegment well after COMPSEGS are outside the model)
+    std::string forceWell, forceGroup;     // while set, every well / group name item is this plain name
+    std::string focusWell, focusGroup;     // the well / group the re-issued keywords address
+    std::vector<int> focusKinds;           // the (few) keyword kinds re-issued for them, so that the same keyword recurs for the same name
+    std::map<std::string, std::string> gpar;   // parent of every non-FIELD group as far as the generator knows
+    std::set<std::string> gwells;              // groups a WELSPECS record put a well in
 
     std::string val(bool allowDefault, double scale = 1000.0) {
         if (allowDefault && r.coin(1, 3)) return "*";
@@ -293,12 +334,13 @@ struct Gen {
         return std::to_string(1 + r.below((uint64_t) scale)) + fr[r.below(4)];
     }
     std::string wellPat(bool allowQ = false) {
+        if (!forceWell.empty()) return forceWell;
         if (allowQ && r.coin(1, 2)) return "?";
         if (!allowQ && r.coin(1, 140)) return r.coin() ? "P9" : "NOPE";       // usually unknown -> input error
         int c = r.range(0, 9);
         if (c == 0 && has('P')) return "P*";
         if (c == 1 && has('I')) return "I*";
-        if (c == 2 && !wells.empty()) return "*";
+        if (c == 2 && !wells.empty() && !(noStar && !msw.empty())) return "*";
         if (c == 3 && rich2 && !lists.empty() && r.coin(2, 3)) return r.coin(1, 8) ? std::string("*L*") : r.pick(lists);
         if (c == 3 && rich2 && r.coin(1, 40)) return "*L3";
         if (wells.empty()) return "P1";
@@ -319,6 +361,7 @@ struct Gen {
         return ps.empty() ? "I1" : r.pick(ps);
     }
     std::string groupPat() {
+        if (!forceGroup.empty()) return forceGroup;
         if (r.coin(1, 60)) return "GX";
         int c = r.range(0, 7);
         if (c == 0 && !groups.empty() && groups.size() > 1) return "G*";
@@ -346,11 +389,13 @@ struct Gen {
             k.recs.push_back({ name, grp, hi, hj });
             if (std::find(wells.begin(), wells.end(), name) == wells.end()) wells.push_back(name);
             if (std::find(groups.begin(), groups.end(), grp) == groups.end()) groups.push_back(grp);
+            gwells.insert(grp);
         }
         return k;
     }
     KwIR compdat(bool allowQ = false) {
         KwIR k{ "COMPDAT", {}, "" };
+        struct NoStar { bool& f; NoStar(bool& x) : f(x) { f = true; } ~NoStar() { f = false; } } guard(noStar);
         int n = r.range(1, 3);
         for (int i = 0; i < n; ++i) {
             int k1 = r.range(1, 4), k2 = r.range(k1, 4);
@@ -452,6 +497,7 @@ struct Gen {
             std::string p = r.coin(1, 3) ? "FIELD" : (r.coin(1, 40) ? "G" + std::to_string(r.range(1, 4)) : "N" + std::to_string(r.range(1, 3)));
             if (c != p) {
                 k.recs.push_back({ c, p });
+                gpar[c] = p;
                 for (auto& gname : { c, p }) if (std::find(groups.begin(), groups.end(), gname) == groups.end()) groups.push_back(gname);
             }
         }
@@ -548,7 +594,7 @@ struct Gen {
     KwIR wpimult(bool allowQ = false) {
         static const std::vector<std::string> fs = { "0.5", "2", "1.5", "1", "0.75" };
         KwIR k{ "WPIMULT", {}, "" };
-        if (rich2 && !wells.empty() && r.coin(1, allowQ ? 3 : 6)) {
+        if (rich2 && !wells.empty() && forceWell.empty() && r.coin(1, allowQ ? 3 : 6)) {
             // two records with all connection items defaulted that select the same well: only the last one counts
             const std::string w = r.pick(wells);
             const std::string wide = r.coin(1, 3) ? w : (r.coin() ? std::string(1, w[0]) + "*" : std::string("*"));
@@ -564,6 +610,117 @@ struct Gen {
             k.recs.push_back(f);
         }
         return k;
+    }
+    // ---- fourth round -------------------------------------------------------------------------------------
+    // GRUPTREE that moves an EXISTING group to another existing parent (no group is created: the old parent's Group object
+    // is the one the earlier snapshots share unless another keyword of this step has replaced it already)
+    KwIR reparent() {
+        std::vector<std::string> cs; for (auto& g : groups) if (g != "FIELD") cs.push_back(g);
+        for (int t = 0; t < 8 && !cs.empty(); ++t) {
+            const std::string c = r.pick(cs);
+            const std::string cur = gpar.count(c) ? gpar[c] : std::string("FIELD");
+            std::vector<std::string> ps;
+            for (auto& g : groups) {
+                if (g == c || g == cur || gwells.count(g)) continue;
+                bool below = false; std::string x = g;
+                for (int dd = 0; dd < 12 && x != "FIELD"; ++dd) { x = gpar.count(x) ? gpar[x] : std::string("FIELD"); if (x == c) { below = true; break; } }
+                if (!below) ps.push_back(g);
+            }
+            if (ps.empty()) continue;
+            const std::string p = r.pick(ps);
+            gpar[c] = p;
+            return KwIR{ "GRUPTREE", { { c, p } }, "" };
+        }
+        return gruptree();
+    }
+    // node groups without wells, so that later re-parenting has somewhere to go
+    KwIR nodes() {
+        KwIR k{ "GRUPTREE", {}, "" };
+        int n = r.range(1, 2);
+        for (int i = 1; i <= n; ++i) {
+            const std::string c = "N" + std::to_string(i), p = (i == 2 && r.coin(1, 3)) ? std::string("N1") : std::string("FIELD");
+            k.recs.push_back({ c, p }); gpar[c] = p;
+            if (std::find(groups.begin(), groups.end(), c) == groups.end()) groups.push_back(c);
+        }
+        return k;
+    }
+    // a state-changing keyword for the focus well / group (the same plain name at every later step it is emitted)
+    KwIR reissue() {
+        struct Force { Gen& g; Force(Gen& x) : g(x) { g.forceWell = g.focusWell; g.forceGroup = g.focusGroup; } ~Force() { g.forceWell.clear(); g.forceGroup.clear(); } } guard(*this);
+        if (focusKinds.empty()) for (int i = 0; i < 3; ++i) focusKinds.push_back(r.range(0, extras ? 9 : 8));
+        const int c = r.pick(focusKinds);
+        switch (c) {
+        case 0: return wecon();
+        case 1: return wtest();
+        case 2: return gconprod();
+        case 3: return gconinje();
+        case 4: return wpimult();
+        case 5: return complump();
+        case 6: { static const std::vector<std::string> acts = { "ADD", "DEL", "NEW", "MOV" };
+                  const bool exists = std::find(lists.begin(), lists.end(), "*L1") != lists.end();
+                  if (!exists) lists.push_back("*L1");
+                  return KwIR{ "WLIST", { { "*L1", exists ? r.pick(acts) : std::string("NEW"), focusWell } }, "" }; }
+        case 7: return gefac();
+        case 8: return wefac();
+        default: return KwIR{ "WELPI", {}, "WELPI\n '" + focusWell + "' " + std::to_string(r.range(5, 40)) + " /\n/\n" };
+        }
+    }
+    // a multisegment well: WELSPECS + COMPDAT (one column, layers 1..n) + WELSEGS (main branch: one segment per layer; 0-2 stub
+    // segments on branches of their own) + COMPSEGS (every connection, in sequence)
+    void mswCreate(std::vector<KwIR>& out) {
+        static const std::vector<std::string> ds = { "0.2", "0.15", "0.25" }, rs = { "0.0001", "0.00015" }, as = { "0.03", "0.02", "0.05" };
+        Msw w{ "M" + std::to_string(msw.size() + 1), r.range(1, 6), r.range(1, 6), r.range(2, 4), 0, {} };
+        const std::string grp = "G" + std::to_string(r.range(1, 4)), si = std::to_string(w.i), sj = std::to_string(w.j);
+        out.push_back(KwIR{ "WELSPECS", { { w.name, grp, si, sj } }, "" });
+        if (std::find(groups.begin(), groups.end(), grp) == groups.end()) groups.push_back(grp);
+        gwells.insert(grp);
+        out.push_back(KwIR{ "COMPDAT", { { w.name, si, sj, "1", std::to_string(w.nconn), "OPEN" } }, "" });
+        KwIR ws{ "WELSEGS", { { w.name } }, "" };
+        for (int sg = 2; sg <= w.nconn + 1; ++sg)
+            ws.recs.push_back({ std::to_string(sg), "1", std::to_string(sg - 1), std::to_string(5 + 10 * (sg - 1)), std::to_string(2000 + 10 * (sg - 1)), r.pick(ds), r.pick(rs), r.pick(as) });
+        const int nstub = r.range(0, 2);
+        for (int b = 0; b < nstub; ++b) {
+            const int outlet = r.range(2, w.nconn + 1);
+            ws.recs.push_back({ std::to_string(w.nconn + 2 + b), std::to_string(2 + b), std::to_string(outlet), std::to_string(5 + 10 * (outlet - 1)) + ".5", std::to_string(2000 + 10 * (outlet - 1)), r.pick(ds), r.pick(rs), r.pick(as) });
+        }
+        w.nseg = w.nconn + 1 + nstub;
+        w.focus.push_back(r.range(2, w.nseg));
+        if (r.coin()) w.focus.push_back(r.range(2, w.nseg));
+        out.push_back(ws);
+        KwIR cs{ "COMPSEGS", { { w.name } }, "" };
+        for (int kk = 1; kk <= w.nconn; ++kk) cs.recs.push_back({ si, sj, std::to_string(kk), "1", std::to_string(5 + 10 * (kk - 1)), std::to_string(5 + 10 * kk) });
+        out.push_back(cs);
+        msw.push_back(w);
+    }
+    // WSEGVALV / WSEGSICD / WSEGAICD for (mostly) the focus segments of a multisegment well: the same segment is addressed at
+    // several report steps
+    KwIR segKw() {
+        static const std::vector<std::string> cvs = { "0.85", "0.7", "0.5" }, acs = { "0.005", "0.0001", "0.002", "0.01" }, pds = { "0.1", "0.3" }, prs = { "0.0002", "0.00005" },
+                                              pas = { "0.01", "0.04" }, lens = { "12", "5", "-0.7", "0.25" }, strs = { "0.002", "0.0005", "0.01" };
+        const Msw& w = r.pick(msw);
+        auto seg = [&] { return std::to_string(r.coin(7, 8) ? r.pick(w.focus) : r.range(2, w.nseg + (r.coin(1, 12) ? 1 : 0))); };     // rarely a segment the well does not have
+        auto st = [&] { return std::string(r.coin(3, 4) ? "OPEN" : "SHUT"); };
+        const int c = r.range(0, 3);
+        if (c <= 1) {
+            KwIR k{ "WSEGVALV", {}, "" };
+            const int n = r.coin(1, 4) ? 2 : 1;
+            for (int i = 0; i < n; ++i)
+                k.recs.push_back({ w.name, seg(), r.pick(cvs), r.pick(acs), r.coin(1, 4) ? r.pick(pds) : std::string("*"), r.coin(1, 4) ? r.pick(prs) : std::string("*"),
+                                   r.coin(1, 4) ? r.pick(pas) : std::string("*"), st(), r.coin(1, 4) ? std::string("0.02") : std::string("*") });
+            return k;
+        }
+        return KwIR{ c == 2 ? "WSEGSICD" : "WSEGAICD", { { w.name, seg(), r.pick(strs), r.pick(lens), st() } }, "" };
+    }
+    // action bodies, property mode only (the model has no WELSPECS / WLIST '?' inside action bodies): keywords whose result
+    // records the ORDER in which '?' is expanded — WELSPECS '?' <group> (order of Group::wells()) and WLIST <list> NEW/ADD '?'
+    // (order of the list); it must be the WELSPECS definition order of the wells, not the alphabetical order of the match set
+    KwIR orderProbe() {
+        if (r.coin(1, 3)) { const bool exists = std::find(lists.begin(), lists.end(), "*L2") != lists.end(); if (!exists) lists.push_back("*L2");
+                            return KwIR{ "WLIST", { { "*L2", exists && r.coin() ? "ADD" : "NEW", "?" } }, "" }; }
+        const std::string grp = "G" + std::to_string(r.range(1, 4));
+        if (std::find(groups.begin(), groups.end(), grp) == groups.end()) groups.push_back(grp);
+        gwells.insert(grp);
+        return KwIR{ "WELSPECS", { { "?", grp, "*", "*" } }, "" };
     }
     KwIR extra() {
         static const std::vector<std::pair<std::string, std::string>> xs = {
@@ -658,7 +815,7 @@ struct Gen {
             case 5: return wconinje(inAction && actionRole == 'I');
             case 6: return welopen(inAction);
             case 7: if (inAction) { if (r.coin(1, 3)) return compdat(true); continue; } return compdat();
-            case 8: if (inAction) { return gruptree(); } return welspecs();
+            case 8: if (inAction) { return extras ? orderProbe() : gruptree(); } return welspecs();
             case 9: return gruptree();
             case 10: return gefac();
             case 11: return compdat();
@@ -688,6 +845,7 @@ struct Gen {
                 else out.push_back(KwIR{ "WELPI", {}, "WELPI\n '" + w + "' " + std::to_string(r.range(5, 40)) + " /\n/\n" });
                 continue;
             }
+            if (extras && rich2 && r.coin(1, 5)) { out.push_back(orderProbe()); continue; }
             out.push_back(ordinary(true));
         }
         out.push_back(KwIR{ "ENDACTIO", {}, "" });
@@ -707,6 +865,19 @@ struct Gen {
             if (ordPos == 3) out.push_back(compord());
             if (r.coin(4, 5)) out.push_back(wconprod());
             if (r.coin(2, 3)) out.push_back(wconinje());
+            if (rich2 && r.coin()) out.push_back(nodes());
+            if (rich2 && mswOn && r.coin()) mswCreate(out);
+            if (rich2 && mswOn && !msw.empty() && r.coin(1, 3)) out.push_back(segKw());
+            if (!wells.empty()) focusWell = r.pick(wells);
+            if (groups.size() > 1) focusGroup = groups[1 + r.below(groups.size() - 1)];
+        }
+        if (!first && rich2) {
+            // the same group re-parented / the same well, group, segment addressed again at a later report step; the re-parenting
+            // comes first so that no keyword of this step has replaced the old parent's object yet
+            if (r.coin(1, 3)) out.push_back(reparent());
+            if (!focusWell.empty() && !focusGroup.empty() && r.coin(2, 3)) { out.push_back(reissue()); if (r.coin(1, 3)) out.push_back(reissue()); }
+            if (mswOn && msw.empty() && r.coin(1, 12)) mswCreate(out);
+            if (mswOn && !msw.empty() && r.coin(1, 2)) out.push_back(segKw());
         }
         int n = r.range(0, 4);
         for (int i = 0; i < n; ++i) {
@@ -722,8 +893,21 @@ struct Gen {
             else out.push_back(ordinary());
         }
     }
+    // C04 modes: `applyAction` runs with a ScheduleGrid that knows only the cells some COMPDAT of the deck (or of an ACTIONX
+    // body: `prefetchPossibleFutureConnections`) has looked up while the deck was loaded; a later-step COMPDAT with defaulted
+    // I,J that reaches a further well only because an action changed a well list throws there (design.d/C04.md).  The
+    // never-applied action ZPRE names every cell of the generator grid, so that every cell is known at run time.
+    bool prefetchAll = false;
+    void prefetchAction(std::vector<KwIR>& out) {
+        out.push_back(KwIR{ "ACTIONX", { { "ZPRE" } }, "" });
+        KwIR k{ "COMPDAT", {}, "" };
+        for (int i = 1; i <= 6; ++i) for (int j = 1; j <= 6; ++j) k.recs.push_back({ "ZPRE", std::to_string(i), std::to_string(j), "1", "4", "SHUT" });
+        out.push_back(k);
+        out.push_back(KwIR{ "ENDACTIO", {}, "" });
+    }
     std::vector<KwIR> schedule(int nsteps) {
         std::vector<KwIR> out;
+        if (prefetchAll) prefetchAction(out);
         for (int s = 0; s < nsteps; ++s) {
             stepBody(out, s == 0);
             out.push_back(r.coin(1, 2) ? dates() : tstep());
@@ -907,9 +1091,86 @@ std::string dumpState(const Schedule& sched, size_t k, const std::set<std::strin
             if (st.wellgroup_events().has(wn) && st.wellgroup_events().hasEvent(wn, ScheduleEvents::WELL_STATUS_CHANGE)) { o << (f ? "" : "/") << wn; f = false; }
         parts.push_back(o.str());
     }
+    {
+        // multisegment wells: the segment set (by segment number) with branch, outlet, type; diameter / roughness / cross-section
+        // area of every segment but the top one; the valve parameters (Cv, Ac, status, pipe diameter / roughness / area, max Ac)
+        // resp. the device length and status of a spiral / autonomous ICD
+        std::ostringstream o; o << "S:";
+        bool f = true;
+        for (const auto& wn : sched.wellNames(k)) {
+            const auto& w = sched.getWell(wn, k);
+            if (!w.isMultiSegment()) continue;
+            std::vector<std::pair<int, std::string>> segs;
+            for (const auto& sg : w.getSegments()) {
+                std::ostringstream q2;
+                q2 << sg.segmentNumber() << "." << sg.branchNumber() << "." << sg.outletSegment() << ".";
+                const auto ty = sg.segmentType();
+                q2 << (ty == Segment::SegmentType::REGULAR ? "R" : ty == Segment::SegmentType::VALVE ? "V" : ty == Segment::SegmentType::SICD ? "S" : "A");
+                if (sg.segmentNumber() > 1) q2 << "." << vh::hexF64(sg.internalDiameter()) << "." << vh::hexF64(sg.roughness()) << "." << vh::hexF64(sg.crossArea());
+                if (ty == Segment::SegmentType::VALVE) {
+                    const auto& v = sg.valve();
+                    q2 << "." << vh::hexF64(v.conFlowCoefficient()) << "." << vh::hexF64(v.conCrossArea()) << "." << (v.status() == ICDStatus::OPEN ? "OPEN" : "SHUT") << "." << vh::hexF64(v.pipeDiameter())
+                       << "." << vh::hexF64(v.pipeRoughness()) << "." << vh::hexF64(v.pipeCrossArea()) << "." << vh::hexF64(v.conMaxCrossArea());
+                } else if (ty == Segment::SegmentType::SICD) {
+                    q2 << "." << vh::hexF64(sg.spiralICD().length()) << "." << (sg.spiralICD().status() == ICDStatus::OPEN ? "OPEN" : "SHUT");
+                } else if (ty == Segment::SegmentType::AICD) {
+                    q2 << "." << vh::hexF64(sg.autoICD().length()) << "." << (sg.autoICD().status() == ICDStatus::OPEN ? "OPEN" : "SHUT");
+                }
+                segs.push_back({ sg.segmentNumber(), q2.str() });
+            }
+            std::sort(segs.begin(), segs.end());
+            o << (f ? "" : "/") << wn << "(";
+            for (size_t i = 0; i < segs.size(); ++i) o << (i ? "+" : "") << segs[i].second;
+            o << ")"; f = false;
+        }
+        parts.push_back(o.str());
+    }
     std::string s;
     for (size_t i = 0; i < parts.size(); ++i) s += (i ? ";" : "") + parts[i];
     return s;
+}
+
+// property modes (real code vs real code): everything else a later keyword could overwrite in an object the snapshots share —
+// every remaining number of every segment and device, the segment each connection is attached to, the group tree walked from
+// FIELD with the wells below each node
+std::string dumpExtra(const Schedule& sched, size_t k) {
+    std::ostringstream o;
+    auto h = [](double x) { return vh::hexF64(x); };
+    for (const auto& wn : sched.wellNames(k)) {
+        const auto& w = sched.getWell(wn, k);
+        if (!w.isMultiSegment()) continue;
+        o << "MS:" << wn << "{";
+        for (const auto& sg : w.getSegments()) {
+            o << sg.segmentNumber() << ":" << h(sg.totalLength()) << "," << h(sg.depth()) << "," << h(sg.volume()) << "," << h(sg.perfLength()) << "," << h(sg.node_X()) << "," << h(sg.node_Y()) << ",[";
+            for (int in : sg.inletSegments()) o << in << " ";
+            o << "]";
+            const auto ty = sg.segmentType();
+            if (ty == Segment::SegmentType::VALVE) o << ",V" << h(sg.valve().pipeAdditionalLength());
+            if (ty == Segment::SegmentType::SICD || ty == Segment::SegmentType::AICD) {
+                const SICD& d = ty == Segment::SegmentType::SICD ? sg.spiralICD() : static_cast<const SICD&>(sg.autoICD());
+                o << ",D" << h(d.strength()) << "," << h(d.densityCalibration()) << "," << h(d.viscosityCalibration()) << "," << h(d.criticalValue()) << "," << h(d.widthTransitionRegion()) << ","
+                  << h(d.maxViscosityRatio()) << "," << d.methodFlowScaling() << "," << (d.maxAbsoluteRate().has_value() ? h(*d.maxAbsoluteRate()) : std::string("-")) << "," << h(d.scalingFactor());
+                if (ty == Segment::SegmentType::AICD) o << "," << h(sg.autoICD().flowRateExponent()) << "," << h(sg.autoICD().viscExponent());
+            }
+            o << ";";
+        }
+        o << "}C[";
+        for (const auto& c : w.getConnections()) o << c.getI() << "." << c.getJ() << "." << c.getK() << "=" << (c.attachedToSegment() ? c.segment() : 0) << " ";
+        o << "]";
+    }
+    // the tree as the group objects of step k describe it, top down (a child its parent no longer lists is not reached)
+    std::function<void(const std::string&, int)> walk = [&](const std::string& g, int depth) {
+        if (depth > 20 || !sched.hasGroup(g, k)) { o << g << "?"; return; }
+        const auto& grp = sched.getGroup(g, k);
+        o << g << "<";
+        for (const auto& c : grp.groups()) { walk(c, depth + 1); o << " "; }
+        o << "|";
+        for (const auto& wl : grp.wells()) o << wl << " ";
+        o << ">";
+    };
+    o << "TREE:"; walk("FIELD", 0);
+    try { o << " below-FIELD=" << sched.getChildWells2("FIELD", k).size(); } catch (...) { o << " below-FIELD=threw"; }
+    return o.str();
 }
 
 // the block structure of the real ScheduleDeck
@@ -995,6 +1256,35 @@ std::string constsEnc() {
 
 int tierN(const std::string& tier, int quick, int thorough) { return tier == "thorough" ? thorough : quick; }
 
+// what the fourth-round generator is for: how often a later report step addresses an object an earlier step has set
+template <class Count> void reissueStats(const std::vector<KwIR>& ks, Count count) {
+    std::map<std::string, size_t> firstSeg, firstObj; std::set<std::string> groupsSeen{ "FIELD" };
+    size_t step = 0; bool inAct = false;
+    for (const auto& k : ks) {
+        if (k.name == "ACTIONX") inAct = true;
+        if (k.name == "ENDACTIO") inAct = false;
+        if (!inAct && k.raw.empty()) {
+            if (k.name == "WSEGVALV" || k.name == "WSEGSICD" || k.name == "WSEGAICD") for (const auto& r : k.recs) {
+                const std::string key = r[0] + "#" + r[1];
+                if (firstSeg.count(key) && firstSeg[key] < step) count("reissue.segment-device-at-later-step." + k.name);
+                firstSeg.emplace(key, step);
+            }
+            if (k.name == "WELSEGS") count(step == 0 ? "msw-well.step0" : "msw-well.later-step");
+            if (k.name == "GRUPTREE") for (const auto& r : k.recs) {
+                if (groupsSeen.count(r[0]) && groupsSeen.count(r[1])) count(step == 0 ? "gruptree.existing-child-and-parent.step0" : "gruptree.existing-child-and-parent.later-step");
+                groupsSeen.insert(r[0]); groupsSeen.insert(r[1]);
+            }
+            if (k.name == "WELSPECS") for (const auto& r : k.recs) groupsSeen.insert(r[1]);
+            for (const char* n : { "WECON", "WTEST", "WLIST", "GCONPROD", "GCONINJE", "WPIMULT", "COMPLUMP", "GEFAC", "WEFAC" }) if (k.name == n) for (const auto& r : k.recs) {
+                const std::string key = k.name + "#" + (k.name == "WLIST" ? (r.size() > 2 ? r[2] : std::string("-")) : r[0]);
+                if (firstObj.count(key) && firstObj[key] < step) count("reissue.same-name-at-later-step." + k.name);
+                firstObj.emplace(key, step);
+            }
+        }
+        step += k.nsteps();
+    }
+}
+
 // ---------------------------------------------------------------------------------------------
 // correspondence: C03
 
@@ -1060,6 +1350,7 @@ int corr(uint64_t seed, const std::string& tier, const std::string& outdir) {
             }
         }
         for (auto& k : ks) sink.count("kw." + k.name);
+        reissueStats(ks, [&](const std::string& key) { sink.count(key); });
         const auto moved = movedSets(ks);
         if (r.ok) for (size_t k = 0; k < n; ++k) for (const auto& wn : r.sched->wellNames(k)) {
             const auto& w = r.sched->getWell(wn, k);
@@ -1164,7 +1455,7 @@ void compareStates(vh::PropLog& log, const std::string& key, const Schedule& a, 
             if ((dm == "groups wells " || dm == "groups " || dm == "wells ") && wellsGroupsEquivalent(a, b, k)) eq = true;
         }
         std::string da, db;
-        try { da = dumpState(a, k); db = dumpState(b, k); } catch (...) { da = "dump-threw"; db = "dump-threw"; }
+        try { da = dumpState(a, k) + " ## " + dumpExtra(a, k); db = dumpState(b, k) + " ## " + dumpExtra(b, k); } catch (...) { da = "dump-threw"; db = "dump-threw"; }
         if (!eq || da != db) {
             log.fail(key, "state " + std::to_string(k) + (eq ? " operator== true" : " operator== false") + " dump " + (da == db ? std::string("equal") : firstDiff(da, db)) + " members: " + diffMembers(a[k], b[k]));
             return;
@@ -1251,6 +1542,7 @@ int prop(uint64_t seed, const std::string& tier, const std::string& outdir) {
         std::shared_ptr<Deck> deck;
         try { deck = std::make_shared<Deck>(parseText(deckOf(ks))); } catch (...) { stats["parse-failed"]++; continue; }
         const std::string label = "gen" + std::to_string(seed) + "." + std::to_string(it);
+        reissueStats(ks, [&](const std::string& key) { stats[key]++; });
         propDeck(log, label, deck, stats, 64);
         // different tail: keep the keywords up to a random time keyword, append a fresh tail
         std::vector<size_t> tpos; for (size_t i = 0; i < ks.size(); ++i) if (ks[i].isTime()) tpos.push_back(i);
@@ -1259,6 +1551,14 @@ int prop(uint64_t seed, const std::string& tier, const std::string& outdir) {
             size_t stepsClosed = 0; for (size_t i = 0; i <= cut; ++i) stepsClosed += ks[i].nsteps();
             std::vector<KwIR> alt(ks.begin(), ks.begin() + cut + 1);
             Gen g2{ rng, true, true }; g2.wells = g.wells; g2.y = 2040;
+            // what the kept prefix has created: groups, node groups, multisegment wells, the focus objects
+            for (const auto& kw : alt) {
+                if (kw.name == "WELSPECS") for (const auto& rc : kw.recs) { if (std::find(g2.groups.begin(), g2.groups.end(), rc[1]) == g2.groups.end()) g2.groups.push_back(rc[1]); g2.gwells.insert(rc[1]); }
+                if (kw.name == "GRUPTREE") for (const auto& rc : kw.recs) { for (const auto& gn : { rc[0], rc[1] }) if (std::find(g2.groups.begin(), g2.groups.end(), gn) == g2.groups.end()) g2.groups.push_back(gn); g2.gpar[rc[0]] = rc[1]; }
+                if (kw.name == "WELSEGS") for (const auto& mw : g.msw) if (mw.name == kw.recs[0][0]) g2.msw.push_back(mw);
+            }
+            g2.focusWell = g.focusWell;
+            if (std::find(g2.groups.begin(), g2.groups.end(), g.focusGroup) != g2.groups.end()) g2.focusGroup = g.focusGroup;
             for (int s = 0; s < rng.range(1, 3); ++s) { g2.stepBody(alt, false); alt.push_back(rng.coin() ? g2.dates() : g2.tstep()); }
             std::shared_ptr<Deck> d2;
             try { d2 = std::make_shared<Deck>(parseText(deckOf(alt))); } catch (...) { stats["parse-failed"]++; continue; }
@@ -1363,7 +1663,7 @@ std::vector<App> chooseApps(vh::Rng& rng, const Schedule& sched, int maxApps, bo
     for (int a = 0; a < want; ++a) {
         std::vector<std::pair<size_t, std::string>> cands;
         for (size_t n = nonDecreasing ? lo : 0; n < sched.size(); ++n)
-            for (const auto& act : sched[n].actions()) cands.push_back({ n, act.name() });
+            for (const auto& act : sched[n].actions()) if (act.name() != "ZPRE") cands.push_back({ n, act.name() });
         if (cands.empty()) break;
         auto c = cands[rng.below(cands.size())];
         App app{ c.first, c.second, {} };
@@ -1395,6 +1695,7 @@ int acorr(uint64_t seed, const std::string& tier, const std::string& outdir) {
     const int N = tierN(tier, 420, 8000);
     for (int it = 0; it < N; ++it) {
         Gen g{ rng, false, true };
+        g.prefetchAll = true;
         auto ks = g.schedule(rng.range(2, 6));
         std::shared_ptr<Deck> deck;
         try { deck = std::make_shared<Deck>(parseText(deckOf(ks))); } catch (...) { sink.count("parse-failed"); continue; }
@@ -1430,6 +1731,14 @@ std::vector<KwIR> substBody(const std::vector<KwIR>& body, const std::vector<std
     for (auto k : body) {
         const bool wellKw = k.name == "WELOPEN" || k.name == "WCONPROD" || k.name == "WCONINJE" || k.name == "WELTARG" || k.name == "WEFAC" || k.name == "COMPDAT" || k.name == "WELSPECS" ||
                             k.name == "WECON" || k.name == "WTEST" || k.name == "COMPLUMP" || k.name == "WPIMULT";
+        if (k.name == "WLIST") {
+            // '?' among the well arguments: the matching wells, in the order '?' is expanded in
+            for (auto& r : k.recs) {
+                std::vector<std::string> f(r.begin(), r.begin() + std::min<size_t>(2, r.size()));
+                for (size_t i = 2; i < r.size(); ++i) { if (r[i] == "?") f.insert(f.end(), sortedWells.begin(), sortedWells.end()); else f.push_back(r[i]); }
+                r = f;
+            }
+        }
         if (wellKw) {
             std::vector<std::vector<std::string>> recs;
             for (auto& r : k.recs) {
@@ -1450,6 +1759,7 @@ int aprop(uint64_t seed, const std::string& tier, const std::string& outdir) {
     const int N = tierN(tier, 320, 6000);
     for (int it = 0; it < N; ++it) {
         Gen g{ rng, it % 2 == 0, true };
+        g.prefetchAll = true;
         auto ks = g.schedule(rng.range(2, 6));
         std::shared_ptr<Deck> deck;
         try { deck = std::make_shared<Deck>(parseText(deckOf(ks))); } catch (...) { stats["parse-failed"]++; continue; }
@@ -1458,6 +1768,18 @@ int aprop(uint64_t seed, const std::string& tier, const std::string& outdir) {
         Real applied = build(deck);
         auto apps = chooseApps(rng, *base.sched, 3);
         if (apps.empty()) { stats["no-action"]++; continue; }
+        {
+            // WELSPECS '?' applied with an EMPTY match set creates a well literally named '?' in the real code (the pattern is
+            // taken for the name of a new well), which no inlined deck can express: not generated (design.d/C04.md)
+            bool skip = false;
+            for (auto& a : apps) if (a.wells.empty()) for (size_t i = 0; i < ks.size(); ++i) if (ks[i].name == "ACTIONX" && ks[i].recs[0][0] == a.action)
+                for (size_t j = i + 1; j < ks.size() && ks[j].name != "ENDACTIO"; ++j) {
+                    if (ks[j].name == "WELSPECS") for (auto& rc : ks[j].recs) if (rc[0] == "?") skip = true;
+                    // WLIST ... '?' with an empty match set throws (no well matches '?') where the inlined record without wells is accepted
+                    if (ks[j].name == "WLIST") for (auto& rc : ks[j].recs) for (size_t q3 = 2; q3 < rc.size(); ++q3) if (rc[q3] == "?") skip = true;
+                }
+            if (skip) { stats["order-probe-with-empty-match-set-not-applied"]++; continue; }
+        }
         // inline: after each application the deck is rebuilt with the substituted body before the time keyword closing block n
         std::vector<KwIR> cur = ks;
         bool inlineOk = true, perStep = false, connFull = false;
